@@ -96,6 +96,42 @@ func (d *timerDef) render() gen.EventDef {
 type step struct {
 	Cancel bool  `json:"cancel"`
 	AtNS   int64 `json:"atNs"`
+	// Then > 0: two jumps in quick succession - the clock is set to AtNS and at
+	// once on to Then, before anybody can look at it in between (a timer that
+	// was woken by the first jump finds the clock at Then). Generated for cycle
+	// timers with an end bound, AtNS before and Then at or after that bound:
+	// whatever was due at AtNS, nothing may fire any more.
+	Then int64 `json:"then,omitempty"`
+}
+
+// gateClock is the mock clock behind a gate: while two jumps are made in one
+// go nobody can read the clock or arm a timer.
+type gateClock struct {
+	m    *clock.Mock
+	gate sync.RWMutex
+}
+
+func (g *gateClock) Now() time.Time {
+	g.gate.RLock()
+	defer g.gate.RUnlock()
+	return g.m.Now()
+}
+func (g *gateClock) After(d time.Duration) <-chan time.Time {
+	g.gate.RLock()
+	defer g.gate.RUnlock()
+	return g.m.After(d)
+}
+func (g *gateClock) Until(t time.Time) <-chan time.Time {
+	g.gate.RLock()
+	defer g.gate.RUnlock()
+	return g.m.Until(t)
+}
+func (g *gateClock) Changes() <-chan time.Time { return g.m.Changes() }
+func (g *gateClock) jumpTwice(a, b time.Time) {
+	g.gate.Lock()
+	defer g.gate.Unlock()
+	g.m.Set(a)
+	g.m.Set(b)
 }
 
 type descriptor struct {
@@ -178,6 +214,7 @@ type result struct {
 	Inconcl                       string
 	Log                           []string
 	Exact, Beyond2, CancelBetween bool
+	Twice                         bool // two jumps in one go (over a tick and past the end bound)
 }
 
 func parseDef(ed gen.EventDef) (*schema.TimerEventDefinition, error) {
@@ -213,7 +250,8 @@ func runUnit(d descriptor) *result {
 	mock := clock.NewMockAt(base)
 	ctx, cancel := context.WithCancel(context.Background())
 	defer cancel()
-	ch, err := timer.New(ctx, mock, *td)
+	gated := &gateClock{m: mock}
+	ch, err := timer.New(ctx, gated, *td)
 	if err != nil {
 		r.Symptom, r.Detail = "construct", fmt.Sprintf("%s %s: %v", ed.TimerKind, ed.TimerExpr, err)
 		return r
@@ -306,7 +344,14 @@ func runUnit(d descriptor) *result {
 				r.Exact = true
 			}
 		}
-		mock.Set(now)
+		if s.Then > 0 {
+			then := base.Add(time.Duration(s.Then))
+			gated.jumpTwice(now, then)
+			now = then
+			r.Twice = true
+		} else {
+			mock.Set(now)
+		}
 		total += ref.advance(now)
 		if !check(fmt.Sprintf("step %d set", i), now) {
 			return r
@@ -402,6 +447,20 @@ func drawSteps(rt *rapid.T, d timerDef) []step {
 			// relative small advance
 			cur += int64(rapid.IntRange(1, 4000).Draw(rt, "adv")) * int64(time.Second)
 			out = append(out, step{AtNS: cur})
+		case 5:
+			if dd.Kind == "cycle" && dd.HasEnd {
+				// two jumps in one go: onto (or just past) a tick before the end
+				// bound, and on to the end bound or beyond
+				end := int64(dd.EndS) * int64(time.Second)
+				k := rapid.IntRange(1, 4).Draw(rt, "tick")
+				t1 := int64(dd.StartS+k*dd.EveryS)*int64(time.Second) + int64(rapid.IntRange(0, 1).Draw(rt, "past"))
+				if t1 > 0 && t1 < end {
+					cur = end + int64(rapid.IntRange(0, 3).Draw(rt, "beyond"))*int64(time.Second)
+					out = append(out, step{AtNS: t1, Then: cur})
+					continue
+				}
+			}
+			fallthrough
 		default:
 			g := grid[rapid.IntRange(0, len(grid)-1).Draw(rt, "grid")]
 			if g < 0 {
@@ -452,7 +511,10 @@ func TestC13Unit(t *testing.T) {
 		if def.HasEnd {
 			cls = append(cls, "endBound")
 		}
-		rec.Case("TestC13Unit", hash, r.Exact || r.Beyond2 || r.CancelBetween, cls, map[string]any{"case": d, "log": r.Log})
+		if r.Twice {
+			cls = append(cls, "twoJumpsInOneGo")
+		}
+		rec.Case("TestC13Unit", hash, r.Exact || r.Beyond2 || r.CancelBetween || r.Twice, cls, map[string]any{"case": d, "log": r.Log})
 		if r.Symptom != "" {
 			rt.Fatalf("%s", rec.Fail(rec.Failure{Property: prop, Test: "TestC13Unit", Symptom: r.Symptom, Detail: r.Detail, Descriptor: d, History: r.Log}))
 		}
